@@ -59,9 +59,9 @@ func (seq *Sequence) Release() error {
 	seq.Lock()
 	defer seq.Unlock()
 
-	// nothing was leased by this instance yet, so there is nothing to give back
-	// (writing the zero value of next would reset the sequence in the store).
-	if seq.reserved == 0 {
+	// this instance holds no unused numbers (nothing leased yet, lease used up, or already released), so there is
+	// nothing to give back: writing next again could rewind a value that another instance has advanced since.
+	if seq.next == seq.reserved {
 		return nil
 	}
 
